@@ -32,6 +32,7 @@ type consCfg struct {
 	AbortedReverse bool    `json:"abortedReverse"`
 	ReadTimeoutMs  int     `json:"readTimeoutMs"`
 	DoubleClose    bool    `json:"doubleClose"`
+	IDBase0        bool    `json:"idBase0"` // broker ids start at 0 instead of 1
 	PanicIc        int     `json:"panicIc"` // 1-based index of a consumer interceptor that panics after logging
 }
 
@@ -189,6 +190,9 @@ func runConsumerScenario(t testing.TB, rec *vRec, sc *consScenario) {
 		"interceptors": cf.Interceptors})
 	c := newSimCluster(t, rec, cf.NBrokers, cf.Leaders)
 	defer c.Close()
+	if cf.IDBase0 {
+		c.SetIDBase(0)
+	}
 	c.abortedReverse = cf.AbortedReverse
 	for k, bs := range sc.Logs {
 		var p int
